@@ -523,7 +523,7 @@ func runCheck(args []string) int {
 				continue
 			}
 			if !o.noreplay && !v.ReplayOK && !hsNoReplay(hs, r.Name) {
-				inconAll = append(inconAll, fmt.Sprintf("%s: counterexample for %q does not reproduce natively (encoding/stub suspect): vals=%v out=%s", r.Name, v.Label, v.Vals, v.ReplayOut))
+				inconAll = append(inconAll, fmt.Sprintf("%s: counterexample for %q (%s) does not reproduce natively (encoding/stub suspect): vals=%v out=%s", r.Name, v.Label, v.Msg, v.Vals, v.ReplayOut))
 				continue
 			}
 			nviol++
